@@ -217,3 +217,19 @@ func c12Flip(b []byte) []byte {
 	}
 	return out
 }
+
+// c12TagClasses splits a generator tag "prefix/a+b+c" into the classes prefix/a, prefix/b, prefix/c.
+func c12TagClasses(prefix, tag string) []string {
+	if tag == "" {
+		return nil
+	}
+	head, tail := "", tag
+	if i := strings.LastIndex(tag, "/"); i >= 0 {
+		head, tail = tag[:i+1], tag[i+1:]
+	}
+	var out []string
+	for _, b := range strings.Split(tail, "+") {
+		out = append(out, prefix+head+b)
+	}
+	return out
+}
